@@ -1,19 +1,4 @@
-mod catchup;
-mod common;
-mod fd;
-mod hostile;
-mod kv;
-mod listen;
-mod mtu;
-mod pairs;
-mod statebuild;
-mod props;
-mod select;
-mod sim;
-mod srv;
-mod util;
-mod wire;
-mod wirecheck;
+use chitchat_verif::*;
 
 use std::time::Instant;
 
